@@ -182,7 +182,7 @@ msg_scenario(int idx) {
 		if (E_CB_BEGIN == tpc_ev[i].type && (tpc_ev[i].a < 100 || tpc_ev[i].a >= 100 + v->nsends))
 			sc_fail("fabricated-callback", "a callback ran with an argument (%ld) nobody sent", tpc_ev[i].a);
 	}
-	tpc_down();
+	/* teardown is C11's subject: the execution ends here (the child process exits) */
 }
 
 int
